@@ -22,4 +22,22 @@ PROPS = {
             "the Lean specification parser agrees with the harness's independent Go parser (engine line `wire.spec`)",
         ],
     },
+    "C07": {
+        "level": "proof",
+        "engines": ["stream"],
+        "required_theorems": ["recv_exact", "recv_exact_data_with_err", "recvAll_exact", "recv_truncated", "recv_too_big", "recv_cap_bound"],
+        "level_text": "Lean 4 theorems over the model of ttlv.Stream.Recv, by induction over the read schedule: for every sequence of complete TTLV frames and EVERY way the transport chunks them (any chunk sizes >= 1, data delivered together with an error on the frame-completing read, exhausted schedule) the receiver returns exactly the frames in order and leaves exactly the remaining bytes on the wire; a stream ending inside a frame never yields a message (any schedule); an announcement above the maximum is rejected having consumed at most the 8 header bytes with the 512-byte buffer never grown. The model is tied to the code by differential runs over a scripted io.ReadWriteCloser (positions after each Recv, outcome classes).",
+        "level_note": "Trusted: Lean kernel; the model recvLoop (validated against ttlv.Stream.Recv by the stream engine on every run); io.Reader contract (n <= len(p)); the decoding of the received frame is covered by C02/C01.",
+        "technique": "Lean 4 proof (induction over adversarial read schedules) + differential correspondence on a scripted transport",
+        "assumptions": ["a Read never returns more bytes than requested (io.Reader contract)", "slices.Grow grows the capacity to at least the requested size"],
+    },
+    "C02": {
+        "level": "proof",
+        "engines": ["wire", "plan", "big", "stream"],
+        "required_theorems": ["unmarshalValue_no_panic", "rawParse_within", "rawParse_extent", "unmarshal_enc"],
+        "level_text": "Lean 4 theorems over a byte-level model of the binary reader in which every Go indexing/slicing primitive keeps its panic: for EVERY byte string the generic decoder returns ok or err, never panic (the guards precede the primitives), every value handed out is a contiguous part of the input inside its item's declared extent, and the items do not overlap; totality of the definitions (fuel = input length) is the termination argument; the model is a pure function (determinism, input unchanged). The model is tied to the code by differential runs on valid, mutated, truncated and random inputs, comparing ok-value/err/panic, with impl-side oracles for panic, input mutation, second-decode equality and dependence on bytes beyond the input.",
+        "level_note": "Trusted: Lean kernel; the reader model (validated by the wire/plan engines); for XML/JSON the standard library tokenisers. Typed-layer and XML/JSON theorems are added as they are proved (see evidence.theorems for what is discharged on this run).",
+        "technique": "Lean 4 proof (no-panic by case analysis on guarded primitives, extent lemmas by induction) + differential correspondence on malformed inputs",
+        "assumptions": ["Go slices: reslicing within capacity does not panic (the nested reader clips capacity)", "encoding/xml and encoding/json tokenisers terminate and do not panic"],
+    },
 }
